@@ -1,6 +1,7 @@
 package harness
 
 import (
+	"fmt"
 	"regexp"
 	"strings"
 	"time"
@@ -197,5 +198,55 @@ func MinimizeTrace(confYAML string, opts WorldOpts, ops []Op, epilogue bool, pro
 // KnownShape names the listed known finding whose excluded shape the history contains ("" if none).
 // A counterexample tagged this way is reported as KNOWN-FINDING, anything else is a violation.
 func KnownShape(prop string, w *World) string {
+	return ""
+}
+
+// TryStart starts a new scheduler with the configuration; returns "" or why that failed (error or panic).
+func TryStart(y string) (why string) {
+	defer func() {
+		if r := recover(); r != nil {
+			why = fmt.Sprintf("panic: %v", r)
+			// the world lock is still held by the failed start
+			worldMu.TryLock()
+			worldMu.Unlock()
+		}
+	}()
+	w, msg := newWorldYAML(y, WorldOpts{NoPredicates: true})
+	if w == nil {
+		return "registration failed: " + msg
+	}
+	w.Close()
+	return ""
+}
+
+// TryReload loads the configuration into a scheduler that runs the base configuration with an application and an
+// allocation; returns "" or why that failed.
+func TryReload(base, y string) string {
+	w, _ := newWorldYAML(base, WorldOpts{NoPredicates: true})
+	if w == nil {
+		return "" // the base configuration is the harness' own: not this check's business
+	}
+	defer w.Close()
+	for _, op := range []Op{
+		{Kind: OpAddNode, Node: "node-1", Res: Res{"memory": 20, "vcore": 20}},
+		{Kind: OpAddApp, App: "app-1", Queue: "root.a", User: "u1", Groups: []string{"g1"}},
+		{Kind: OpAddAsk, App: "app-1", Key: "ask-1", Res: Res{"memory": 2, "vcore": 2}, AllowSelf: true},
+		{Kind: OpAddAsk, App: "app-1", Key: "ask-2", Res: Res{"memory": 30, "vcore": 2}, AllowSelf: true},
+		{Kind: OpSchedule},
+	} {
+		w.Step(op)
+	}
+	res := w.Step(Op{Kind: OpReload, Conf: y})
+	if res.Panic != "" {
+		return firstLines(res.Panic, 12)
+	}
+	if res.ReloadErr != "" {
+		return "reload rejected: " + res.ReloadErr
+	}
+	// and the scheduler keeps working
+	r2 := w.Step(Op{Kind: OpSchedule})
+	if r2.Panic != "" {
+		return "scheduling after the reload: " + firstLines(r2.Panic, 12)
+	}
 	return ""
 }
